@@ -94,8 +94,8 @@ def renumber_loops(chk, rule):
             chk.judge(good, rule, lp, '%s: for %s in %s: set_context_id(context_counter); context_counter += get_context_size()' % (q, v, src(lp.iter)),
                       'the loop over %s renumbers its clauses without advancing the counter by their size: in a batch (the only caller of update_context_id) two clauses of one '
                       'statement - e.g. two map-key removals - get the same placeholder id and the second value overwrites the first' % src(lp.iter))
-    if n < 5:
-        raise AnalysisError('update_context_id loops: found %d, expected at least 5' % n)
+    if n < 3:
+        raise AnalysisError('update_context_id loops: found %d, expected at least 3' % n)
 
 
 def check(chk):
